@@ -3,8 +3,10 @@
     With [doDecay < 0.5] the model is LumpedConstituentTransport with the annual
     point-source load converted to kg/s as point input.  The decay loop is
     modelled for the correspondence only (it never updates the stored mass; C12
-    does not speak about it).  [prevVolume := reachVolume.Get([0])] before the
-    loop panics on an empty series. *)
+    does not speak about it).  An empty series returns at once with the stored
+    mass unchanged ([if n == 0 { return storedMass }], before
+    [prevVolume := reachVolume.Get([0])]); in the model the run over zero rows
+    does exactly that, so the first reach volume is only looked at when there is one. *)
 From Coq Require Import ZArith List.
 From OW Require Import Base.Arith Base.Mealy Kernels.C12Common Kernels.LumpedConstituent.
 Import ListNotations.
@@ -74,18 +76,16 @@ Section K.
     : option (list (list T) * list T) :=
     match params, states, inputs with
     | [doDecay; pointSourceLoad; lh; lw; ll; uv; dt], [storedMass], [up; lat; vol; outflow; fpf] =>
-        match vol with
-        | [] => None      (* reachVolume.Get([0]) on an empty series *)
-        | v0 :: _ =>
-            let psps := pointSourceLoad / DN_SECONDS_PER_YEAR in
-            if doDecay <? of_q 1 2 then
-              let (s', os) := lumped_transport up (Some lat) outflow vol storedMass psps dt in
-              Some ([zeros os; map lo_outflowLoad os; zeros os; map lo_pointSourceLoad os], [s'])
-            else
-              let p := mk_dn_params psps lh lw ll uv dt in
-              let '((s', _), os) := run (dn_decay_step p) (storedMass, v0) (dn_rows up lat vol outflow) in
-              Some ([map dno_decayedLoad os; map dno_loadDownstream os; zeros os; map dno_loadFromPointSource os], [s'])
-        end
+        let psps := pointSourceLoad / DN_SECONDS_PER_YEAR in
+        if doDecay <? of_q 1 2 then
+          let (s', os) := lumped_transport up (Some lat) outflow vol storedMass psps dt in
+          Some ([zeros os; map lo_outflowLoad os; zeros os; map lo_pointSourceLoad os], [s'])
+        else
+          let p := mk_dn_params psps lh lw ll uv dt in
+          (* prevVolume := reachVolume[0]; with an empty series there are no rows and it is never used *)
+          let v0 := match vol with [] => zero | v :: _ => v end in
+          let '((s', _), os) := run (dn_decay_step p) (storedMass, v0) (dn_rows up lat vol outflow) in
+          Some ([map dno_decayedLoad os; map dno_loadDownstream os; zeros os; map dno_loadFromPointSource os], [s'])
     | _, _, _ => None
     end.
 End K.
